@@ -50,6 +50,17 @@ func main() {
 		for _, b := range fn.Blocks {
 			for _, ins := range b.Instrs {
 				kinds[reflect.TypeOf(ins).Elem().Name()]++
+				// values that are not block instructions (constants, parameters, ...) are seen as operands
+				for _, op := range ins.Operands(nil) {
+					if op != nil && *op != nil {
+						if t := reflect.TypeOf(*op); t.Kind() == reflect.Ptr {
+							switch t.Elem().Name() {
+							case "Const", "AggregateConst", "Parameter", "Global", "Builtin", "Function", "ArrayConst", "GenericConst", "ZeroConst":
+								kinds[t.Elem().Name()]++
+							}
+						}
+					}
+				}
 			}
 		}
 		for _, fv := range fn.FreeVars {
